@@ -55,6 +55,59 @@ type Rule struct {
 	RHS    []int  `json:"rhs"`            // < len(Terms): terminal; else len(Terms)+nt
 	Prec   int    `json:"prec"`           // -1 or terminal index named by %prec
 	Action string `json:"action,omitempty"` // text including the braces, "" = none
+	Sem    *Sem   `json:"sem,omitempty"`    // abstract semantic action (tier G)
+}
+
+// Sem is an abstract semantic action whose text is the same in Go and
+// TypeScript. Kind "lin": $$ = (C0 + sum Coef*$Pos) % SemMod over integer
+// fields. Kind "cat": $$ = concatenation of string literals and $Pos values.
+// Kind "none": no assignment (the lhs carries no tag).
+type Sem struct {
+	Kind  string    `json:"kind"`
+	C0    int       `json:"c0,omitempty"`
+	Terms []SemTerm `json:"terms,omitempty"`
+	Parts []SemPart `json:"parts,omitempty"`
+}
+
+type SemTerm struct {
+	Coef int `json:"coef"`
+	Pos  int `json:"pos"` // 1-based rhs position
+}
+
+type SemPart struct {
+	Pos  int    `json:"pos,omitempty"` // 0 = literal text
+	Text string `json:"text,omitempty"`
+}
+
+const SemMod = 1000003
+
+// Text renders the assignment statement ("" for kind none).
+func (m *Sem) Text() string {
+	if m == nil {
+		return ""
+	}
+	switch m.Kind {
+	case "lin":
+		e := fmt.Sprint(m.C0)
+		for _, t := range m.Terms {
+			e += fmt.Sprintf(" + %d*$%d", t.Coef, t.Pos)
+		}
+		return fmt.Sprintf("$$ = (%s) %% %d", e, SemMod)
+	case "cat":
+		var ps []string
+		for _, p := range m.Parts {
+			if p.Pos > 0 {
+				ps = append(ps, fmt.Sprintf("$%d", p.Pos))
+			} else {
+				ps = append(ps, fmt.Sprintf("%q", p.Text))
+			}
+		}
+		if len(ps) == 0 {
+			ps = []string{`""`}
+		}
+		return "$$ = " + strings.Join(ps, " + ")
+	}
+	return ""
 }
 
 type PrecLevel struct {
